@@ -409,8 +409,15 @@ def _shard(spec, prop, shard, n, wd, binary, known_ids, respath):
                 res["notes"].append("shrink pass raised %s: %s" % (type(e).__name__, str(e)[:200]))
             finally:
                 spec.close(c2)
-            if "item" in last:
-                # delta-debugging post-pass (same failure kind required)
+            first = False
+            try:
+                os.close(os.open(os.path.join(wd, "reduce.lock"), os.O_CREAT | os.O_EXCL | os.O_WRONLY))
+                first = True
+            except OSError:
+                pass
+            if "item" in last and first:
+                # delta-debugging post-pass (same failure kind required); only the first shard that gets here
+                # pays for it, the other shards report their Hypothesis-shrunk example as it is
                 kind = last["v"].get("kind")
                 c3 = spec.open(wd, "s%d_r" % shard, binary)
 
